@@ -210,6 +210,10 @@ Definition uniform_raw (mn mx r : b64) : b64 := fadd mn (fmul r (fsub mx mn)).
 Definition uniform_expr (mn mx r : b64) : b64 :=
   let v := uniform_raw mn mx r in
   if fleb mx v && fltb mn mx then fpred mx else v.
+(* the same with the stored member [range] (set by the constructor, setMin and setMax) *)
+Definition uniform_expr_stored (mn mx range r : b64) : b64 :=
+  let v := fadd mn (fmul r range) in
+  if fleb mx v && fltb mn mx then fpred mx else v.
 Definition uniform_value (mn mx : b64) (v : N) : b64 := uniform_expr mn mx (res53 v).
 Definition uniform_int (mn mx : b64) (v : N) : Z := floorZ (uniform_value mn mx v).
 (* the pre-fix expression on a raw draw (kept for the regression lemmas) *)
@@ -287,3 +291,90 @@ Definition gauss_value (fuel : nat) (mean sd : T) (c : gstate) (us : list T)
             end
   end.
 End Gauss.
+
+(* ------------------------------------------------------------------ histories of one generator object *)
+(* Random::Uniform used over time: draws interleaved with setMin / setMax / setSeed.  UniformImpl keeps
+   min, max and range = max - min (recomputed by the constructor, setMin and setMax). *)
+Inductive uop : Type := UGet | UGetInt | USetMin (x : b64) | USetMax (x : b64) | USetSeed (seed : N).
+Record uobj := mkUO { uo_min : b64; uo_max : b64; uo_range : b64; uo_st : rstate }.
+Definition unew (mn mx : b64) (seed : N) : uobj := mkUO mn mx (fsub mx mn) (set_seed seed).
+(* one returned value: the raw 64-bit draw consumed, the value of getValue(), and its floor for getIntValue() *)
+Record uout := mkUOut { uo_raw : N; uo_val : b64; uo_is_int : bool }.
+
+Definition uget (o : uobj) : b64 * N * uobj :=
+  let '(v, st') := next_raw (uo_st o) in
+  (uniform_expr_stored (uo_min o) (uo_max o) (uo_range o) (res53 v), v,
+   mkUO (uo_min o) (uo_max o) (uo_range o) st').
+
+Definition ustep (o : uobj) (op : uop) : option uout * uobj :=
+  match op with
+  | UGet => let '(x, v, o') := uget o in (Some (mkUOut v x false), o')
+  | UGetInt => let '(x, v, o') := uget o in (Some (mkUOut v x true), o')
+  | USetMin x => (None, mkUO x (uo_max o) (fsub (uo_max o) x) (uo_st o))
+  | USetMax x => (None, mkUO (uo_min o) x (fsub x (uo_min o)) (uo_st o))
+  | USetSeed s => (None, mkUO (uo_min o) (uo_max o) (uo_range o) (set_seed s))
+  end.
+
+Fixpoint urun (o : uobj) (ops : list uop) : list uout * uobj :=
+  match ops with
+  | [] => ([], o)
+  | op :: t => let '(r, o1) := ustep o op in
+               let '(l, o2) := urun o1 t in
+               (match r with Some x => x :: l | None => l end, o2)
+  end.
+
+(* Random::Gaussian used over time.  GaussianImpl keeps mean, stddev and the cached second deviate of a
+   pair, stored UNSCALED (nextGaussian = y*multiplier); the parameters are applied when a value is
+   handed out.  A reseed supplies the unit draws of the new stream and clears the cache. *)
+Section GaussHistory.
+Context {T : Type} (G : GOps T).
+Inductive gop : Type := GGet | GSetMean (m : T) | GSetSd (s : T) | GSetSeed (us : list T).
+Record gobj := mkGO { go_mean : T; go_sd : T; go_cache : option T; go_us : list T }.
+(* one returned value: parameters in force at the call, the unit deviate used, the value *)
+Record gout := mkGOut { o_mean : T; o_sd : T; o_dev : T; o_val : T }.
+
+Definition gget (fuel : nat) (o : gobj) : option (gout * gobj) :=
+  match go_cache o with
+  | Some g => Some (mkGOut (go_mean o) (go_sd o) g (g_add G (go_mean o) (g_mul G (go_sd o) g)),
+                    mkGO (go_mean o) (go_sd o) None (go_us o))
+  | None => match polar G fuel (go_us o) with
+            | Some (x, y, m, rest) =>
+                Some (mkGOut (go_mean o) (go_sd o) (g_mul G x m)
+                        (g_add G (go_mean o) (g_mul G (g_mul G (go_sd o) x) m)),
+                      mkGO (go_mean o) (go_sd o) (Some (g_mul G y m)) rest)
+            | None => None
+            end
+  end.
+
+(* outputs of the getValue calls of a history; None = the loop ran out of fuel / of supplied draws *)
+Fixpoint grun (fuel : nat) (o : gobj) (ops : list gop) : list (option gout) :=
+  match ops with
+  | [] => []
+  | GGet :: t => match gget fuel o with
+                 | Some (r, o') => Some r :: grun fuel o' t
+                 | None => [None]
+                 end
+  | GSetMean m :: t => grun fuel (mkGO m (go_sd o) (go_cache o) (go_us o)) t
+  | GSetSd s :: t => grun fuel (mkGO (go_mean o) s (go_cache o) (go_us o)) t
+  | GSetSeed us :: t => grun fuel (mkGO (go_mean o) (go_sd o) None us) t
+  end.
+
+(* the parameters in force at each getValue, read off the history alone *)
+Fixpoint gparams (m s : T) (ops : list gop) : list (T * T) :=
+  match ops with
+  | [] => []
+  | GGet :: t => (m, s) :: gparams m s t
+  | GSetMean m' :: t => gparams m' s t
+  | GSetSd s' :: t => gparams m s' t
+  | GSetSeed _ :: t => gparams m s t
+  end.
+(* the history with the parameter changes removed *)
+Fixpoint gerase (ops : list gop) : list gop :=
+  match ops with
+  | [] => []
+  | GSetMean _ :: t => gerase t
+  | GSetSd _ :: t => gerase t
+  | op :: t => op :: gerase t
+  end.
+End GaussHistory.
+Arguments GGet {T}. Arguments GSetMean {T} _. Arguments GSetSd {T} _. Arguments GSetSeed {T} _.
